@@ -929,6 +929,8 @@ package bigbuff
 //@   # with a cooldown, exactly one timer goroutine is started and the skipped-run flag is cleared (the run just done saw every change so far)
 //@   ensures armed [C04] : old(timer) == nil && d > 0 ==> timer != nil && !broadcast && spawned("(*Buffer).cleanup$1$1") == 1
 //@   ensures idle [C04] : old(timer) == nil && d <= 0 ==> timer == nil && spawned("(*Buffer).cleanup$1$1") == 0
+//@   # the cooldown timer is only ever waited out, never stopped: a goroutine is parked on its channel until it fires
+//@   ensures nostop [C04] : icalls("(*time.Timer).Stop") == 0
 //@   ensures inv : inv(b.mutex)
 
 //@ # the timer goroutine: waits for the timer, then (deferred) re-enables the cycle
